@@ -23,6 +23,8 @@ for d in mutants/*/; do
 done
 for d in seeded/*/; do
   [ -f "$d/patch.diff" ] || continue
-  if [ -f "$d/props" ]; then run "$d/patch.diff" $(cat "$d/props"); fi
+  if [ -f "$d/props" ]; then
+    if [ -n "$(cat "$d/props" | tr -d ' \n')" ]; then run "$d/patch.diff" $(cat "$d/props"); else echo "open $d (recorded as not yet caught, DESIGN §16)"; fi
+  fi
 done
 exit $rc
